@@ -78,6 +78,11 @@ func parseInitialState(initialState string) (*model.CreateRequest, error) {
 		return nil, errors.New("initial state is not valid")
 	}
 
+	// the initial state may omit the operation type; if it names one it has to be 'create'
+	if createRequest.Operation != "" && createRequest.Operation != operation.TypeCreate {
+		return nil, errors.New("initial state is not a create request")
+	}
+
 	createRequest.Operation = operation.TypeCreate
 
 	return &createRequest, nil
